@@ -95,11 +95,25 @@ structure St (σ : Type) where
   auto : Option Bool
   deriving Repr
 
+/-- What kind of exception the failure oracle raises.  **The model never consults it**:
+    `_ProxyTransaction.__exit__(type_, value, tb)` delegates to the SQLAlchemy
+    `Transaction.__exit__`, which rolls back whenever `type_ is not None` — for
+    `KeyboardInterrupt`, `SystemExit` and any other `BaseException` exactly as for an
+    `Exception`; likewise the `finally:` of `autocommit_block` and `Connection.close()` run for
+    every kind.  The field exists so that the theorems visibly quantify over it and so that
+    the harness varies it against the real code. -/
+inductive FailKind where
+  | exception             -- an `Exception` subclass
+  | keyboardInterrupt     -- `KeyboardInterrupt`
+  | systemExit            -- `SystemExit`
+  | baseException         -- any other `BaseException` that is not an `Exception`
+  deriving DecidableEq, Repr
+
 inductive Atom (α : Type) where
   | stmt (s : Stmt α)
   | enterAuto
   | exitAuto
-  | raise                 -- the failure oracle: an exception is raised here
+  | raise (kind : FailKind)   -- the failure oracle: an exception of this kind is raised here
   deriving Repr
 
 inductive Outcome (σ : Type) where
@@ -151,7 +165,8 @@ def beginTransaction (c : Cfg) (perMigrationCall : Bool) (st : St σ) : Bool × 
     else (true, { autobegin c.mode st with txn := true })
 
 /-- `_ProxyTransaction.__exit__` (through `Transaction.__exit__`): commit, or rollback when
-    an exception is propagating; `self._transaction = None`. -/
+    an exception is propagating (`exc` = `type_ is not None`; the exception's class is not
+    looked at, see `FailKind`); `self._transaction = None`. -/
 def proxyExit (exc : Bool) (st : St σ) : St σ :=
   if st.txn then { (if exc then rollback st else commit st) with txn := false } else st
 
@@ -174,7 +189,7 @@ def exitAuto (md : Mode) (st : St σ) : St σ :=
 
 def runAtoms (md : Mode) : List (Atom α) → St σ → Outcome σ
   | [], st => .ok st
-  | .raise :: _, st => .raised (exitAuto md st)          -- `finally` of an open autocommit block
+  | .raise _ :: _, st => .raised (exitAuto md st)        -- any kind: `finally` of an open autocommit block runs
   | .stmt s :: r, st => runAtoms md r (execStmt ap md s st)
   | .enterAuto :: r, st =>
     match enterAuto md st with
@@ -198,10 +213,10 @@ def migAtoms (m : Mig α) : List (Atom α) := bodyAtoms m.segs ++ versionAtoms m
 /-- The failure oracle: migrations `0..k-1` run completely, migration `k` raises at atom
     position `pos` (`0` = before its first statement, `length` = after the version update,
     e.g. in an `on_version_apply` callback). -/
-def oracle (plan : List (Mig α)) (k pos : Nat) : List (List (Atom α)) :=
+def oracle (kind : FailKind) (plan : List (Mig α)) (k pos : Nat) : List (List (Atom α)) :=
   (plan.take k).map migAtoms ++
     match plan[k]? with
-    | some m => [(migAtoms m).take pos ++ [.raise]]
+    | some m => [(migAtoms m).take pos ++ [.raise kind]]
     | none => []
 
 /-- the `for step in self._migrations_fn(heads, self)` loop -/
